@@ -21,6 +21,12 @@
   the real API makes impossible (constructing an engaged variable, using a destroyed one, invoking
   through a null/invalid wrapper, bad slot numbers) give `Res.bad` and change nothing.
 
+  Every member function is a short sequence of PRIMITIVES (`Prim`, `compile`) that follows the body
+  of the C++ function: e.g. `operator=(any_object&&)` = [clear i (leave invalid_obj), moveInto i j],
+  `any_object(T&&)` = [mkTemp, emplaceFromTemp j, clear tmp] where pseudo-variable 3 (`tmp`) holds
+  the caller's temporary payload.  All primitives run even if one throws (unwinding destroys the
+  temporary); the op reports `threw` if any did.
+
   What the code does, clause by clause:
     * storage decision (`can_be_stored_inplace_v`): size ≤ padded size ∧ align ≤ padded alignment ∧
       (¬RequireNoexceptMove ∨ nothrow-move-constructible)            → `Cfg.inplace`
